@@ -7,6 +7,7 @@ import (
 	"encoding/json"
 	"fmt"
 	"io"
+	"net/http"
 	"sort"
 	"strings"
 
@@ -90,12 +91,15 @@ func c19Build(cfg c19Cfg) *restful.Container {
 			}
 		}
 	}
-	item := ws.GET("/item/{id}").To(echo("item"))
+	// conditions are scheduling points inside route selection (under the container's read lock)
+	cond := func(*http.Request) bool { pt("condition"); return true }
+	item := ws.GET("/item/{id}").If(cond).To(echo("item"))
 	if cfg.Kind == "filters" {
 		item.Filter(logging("r"))
 	}
 	ws.Route(item)
-	ws.Route(ws.GET("/other/{name}").To(echo("other")))
+	ws.Route(ws.GET("/other/{name}").If(cond).To(echo("other")))
+	ws.Route(ws.PUT("/other/{name}").If(cond).To(echo("other-put")))
 	ws.Route(ws.POST("/item").To(func(req *restful.Request, resp *restful.Response) {
 		var v c19Ent
 		if err := req.ReadEntity(&v); err != nil {
@@ -115,6 +119,13 @@ func c19Build(cfg c19Cfg) *restful.Container {
 		}
 	}))
 	c.Add(ws)
+	// a second service with its own service filter
+	ws2 := new(restful.WebService).Path("/b")
+	if cfg.Kind == "filters" {
+		ws2.Filter(logging("s2"))
+	}
+	ws2.Route(ws2.GET("/thing/{tid}").If(cond).To(echo("thing")))
+	c.Add(ws2)
 	return c
 }
 
@@ -129,6 +140,9 @@ func c19Q() []h.Req {
 		{Method: "OPTIONS", Segs: []string{"api", "item", "1"}, Hdr: [][2]string{{"Origin", corsE1}, {"Access-Control-Request-Method", "GET"}, {"Access-Control-Request-Headers", "X-A"}}},
 		{Method: "GET", Segs: []string{"api", "nest", "9"}, Hdr: [][2]string{{"X-Who", "carol"}}},
 		{Method: "GET", Segs: []string{"api", "other", "n"}, Hdr: [][2]string{{"X-Who", "dave"}, {"Origin", corsE1}}},
+		{Method: "OPTIONS", Segs: []string{"api", "other", "n"}, Hdr: [][2]string{{"Origin", corsE1}, {"Access-Control-Request-Method", "PUT"}}},
+		{Method: "DELETE", Segs: []string{"api", "other", "n"}, Hdr: [][2]string{{"X-Who", "erin"}}},
+		{Method: "GET", Segs: []string{"b", "thing", "5"}, Hdr: [][2]string{{"X-Who", "frank"}}},
 	}
 }
 
@@ -318,7 +332,7 @@ func checkC19(run *h.Run) {
 	run.Cov["distinct_nontrivial"] = states
 	run.Cov["distinct_outcomes"] = outcomes.Len()
 	run.Cov["exhaustive"] = true
-	run.Cov["rule"] = fmt.Sprintf("E2: configurations {plain, 3 container + service + route filters, CORS with computed methods, OPTIONS filter, encoding with bounded(1) provider} x {CurlyRouter, RouterJSR311} x entry {Dispatch, ServeHTTP} x trace {off, on}: every sequence over the request set Q (%d requests: two GETs on one template, POST entity, 404, 405, CORS preflight, a handler that dispatches a nested request, a second template) of length <= %d on one container, plus the 1000-fold repetition of each request; the last response (status, all headers, decoded body with echoed parameters / attribute / selected route) must equal the response on a fresh container with trace off. E3 (instrumented): every pair (thorough: also triples) of Q concurrently, all schedules within the preemption bound, same oracle per request, happens-before race detection; then the free-running -race pass. Every history is non-trivial.", len(q), depth)
+	run.Cov["rule"] = fmt.Sprintf("E2: configurations {plain, 3 container + service + route filters, CORS with computed methods, OPTIONS filter, encoding with bounded(1) provider} x {CurlyRouter, RouterJSR311} x entry {Dispatch, ServeHTTP} x trace {off, on}: every sequence over the request set Q (%d requests: two GETs on one template, POST entity, 404, 405, CORS preflight, a handler that dispatches a nested request, a second template with other methods incl. its preflight and 405, a second service) of length <= %d on one container, plus the 1000-fold repetition of each request; the last response (status, all headers, decoded body with echoed parameters / attribute / selected route) must equal the response on a fresh container with trace off. E3 (instrumented): every pair (thorough: also triples) of Q concurrently, all schedules within the preemption bound, same oracle per request, happens-before race detection; then the free-running -race pass. Every history is non-trivial.", len(q), depth)
 	run.Assume = []string{"differential: the fresh-container response is the reference; handlers also self-check that their own view does not change while they run"}
 	if f := e3Part["C19"]; f != nil {
 		f(run)
